@@ -295,6 +295,26 @@ def cases(rng, tier):
                             oracle=o_norms(O, f, p), always_oracle=True, tag='cli' + (':refuse' if idx % p == 0 else '')))
             out.append(Case('dec_lib_norms', line('dec_lib_norms', f, p), model=line('dec_norms', ctx, p, CLI_STREAM), compare=compare_norms,
                             oracle=o_norms(O, f, p), always_oracle=True, tag='cli-lib' + (':refuse' if idx % p == 0 else '')))
+    # the binary with SEVERAL primes in one configuration, one of them beyond 2^64 (and one beyond 2^31): every prime that
+    # does not divide the index must get its entry; decided by the oracle on the printed (norm, e) lists, prime by prime
+    import lib as _lib
+    def o_multi(O, f, ps):
+        def orc(ia):
+            if ia.kind != 'ok' or ia.val == Id('cli_failed'): return 'prime-decomposition of %s at %s failed: %s' % (f, ps, ia.raw[:120])
+            if [e[0] for e in ia.val] != list(ps): return 'the CLI printed entries for the primes %s, asked for %s' % ([e[0] for e in ia.val], list(ps))
+            for q, fl in ia.val:
+                class A: pass
+                a_ = A(); a_.kind = 'ok'; a_.val = fl; a_.raw = str(fl)
+                r = o_norms(O, f, q)(a_)
+                if r is not None: return 'prime %s of %s: %s' % (q, ps, r)
+            return None
+        return orc
+    for f, B in cli[:4 if quick else 12]:
+        O = Ord(B, f)
+        idx = O.index_in_power_basis().numerator
+        ps = [q for q in (5, 4294967311, P_BIG, 13) if idx % q != 0]
+        out.append(Case('cli_prime_decomp_multi', line('cli_prime_decomp_multi', f, ps), model=_lib.IMPL_ONLY, oracle=o_multi(O, f, ps),
+                        always_oracle=True, tag='cli-multi'))
     out += edge_cases(rng)
     return out
 
